@@ -146,6 +146,9 @@ def generate(seed: int, tier: str = "quick") -> dict:
         faults.append({"kind": "book_float_sizes"})
     if comarket:
         add_comarket(rw, world, token, path)
+    if not mw.get("filtered_from_half_hours") and R.sub(seed, "via_files").random() < 0.15:
+        mw["via_files"] = True  # the snapshots reach the market through per-day files and the real loader
+        faults.append({"kind": "data_read_from_day_files"})
     # hostile history: an instrument dropped from one hour / an hour row missing (never the first hour)
     if len(mw["hours"]) > 1 and rf.random() < 0.2:
         h = rf.randint(1, len(mw["hours"]) - 1)
